@@ -3,11 +3,11 @@ package c02
 import (
 	"fmt"
 	"os"
-	"sort"
 	"runtime/pprof"
+	"sort"
 	"strconv"
-	"time"
 	"strings"
+	"time"
 
 	"github.com/dop251/goja"
 
@@ -45,6 +45,20 @@ func Dev(args []string) {
 	n, _ := strconv.Atoi(args[1])
 	seed, _ := strconv.ParseUint(args[2], 10, 64)
 	strict := len(args) > 3 && args[3] == "strict"
+	if args[0] == "pinned" {
+		for i := range pinned {
+			ctx := &core.Ctx{Property: "C02", Tier: "quick", Seed: seed, Index: -i - 1, Rng: core.CaseRng(seed, "C02", -i-1), Stats: core.NewStats()}
+			r := run(ctx)
+			fmt.Printf("%-45s %s %s\n", pinned[i].name, r.Verdict, core.Trunc(strings.ReplaceAll(r.Detail, "\n", " | "), 260))
+		}
+		return
+	}
+	if args[0] == "one" {
+		ctx := &core.Ctx{Property: "C02", Tier: "quick", Seed: seed, Index: n, Rng: core.CaseRng(seed, "C02", n), Stats: core.NewStats()}
+		r := run(ctx)
+		fmt.Printf("%s monitor=%s\n%s\n", r.Verdict, r.Monitor, r.Detail)
+		return
+	}
 	if args[0] == "l2" {
 		enableL1 = false
 		args[0] = "sweep"
@@ -169,7 +183,7 @@ func Dev(args []string) {
 				if k[:3] == "RET" {
 					k = "RET"
 				} else if len(k) > 8 && k[6:8] == "E:" {
-					k = k
+					_ = k
 				} else {
 					k = "THROW other"
 				}
